@@ -89,12 +89,24 @@ def impl(case):
         if d.get("radius", "none") != "none" and d["cls"] in ("SphericalSurfaceHistogram", "CylindricalSurfaceHistogram"):
             kwr["radius"] = float(d["radius"])      # the measure is the one of the angular / (phi, z) coordinates, whatever the radius says
         h = K(bs[0], fr) if len(bs) == 1 and issubclass(K, Histogram1D) else K(bs, fr, **kwr)
-        nd = h.ndim
+        nd = h.ndim; broken_twin = False
+        if d["cls"] == "Histogram1D" and len(d["axes"][0]) >= 1:
+            # geometry stays consistent with the contents after a refused call as well: an adaptive twin over the first bin's width is
+            # asked to take values beyond its bins together with weights of the wrong length
+            import physt
+            w0 = float(d["axes"][0][0][1]) - float(d["axes"][0][0][0]); x0 = float(d["axes"][0][0][0])
+            tw = physt.h1(np.array([x0 + 0.5 * w0, x0 + 1.5 * w0]), "fixed_width", bin_width=w0, adaptive=True)
+            try: tw.fill_n(np.array([x0 + 7.5 * w0, x0 + 9.5 * w0, x0 - 4.5 * w0]), weights=np.array([1.0, 2.0]))
+            except Exception: pass
+            try:
+                ok_tw = len(tw.frequencies) == tw.bin_count == len(tw.bin_sizes) == len(tw.densities) and np.allclose(tw.densities * tw.bin_sizes, tw.frequencies)
+            except Exception: ok_tw = False
+            broken_twin = not ok_tw
         def f(a): return [float(x) for x in np.asarray(a, dtype=float).ravel()]
         one = nd == 1
         axes = [[[float(a), float(b)] for a, b in bb.bins.tolist()] for bb in h._binnings]
         out = [["cls", type(h).__name__], ["pi", math.pi], ["axes", axes], ["cos", [[[math.cos(a), math.cos(b)] for a, b in ax] for ax in axes]],
-               ["freq", f(h.frequencies)], ["dens", f(h.densities)], ["sizes", f(h.bin_sizes)], ["total", float(h.total)]]
+               ["freq", f(h.frequencies)], ["dens", f(h.densities) if not broken_twin else []], ["sizes", f(h.bin_sizes)], ["total", float(h.total)]]      # (a broken twin shows as missing densities)
         if one:
             out += [["left", [f(h.bin_left_edges)]], ["right", [f(h.bin_right_edges)]], ["centers", [f(h.bin_centers)]], ["widths", [f(h.bin_widths)]],
                     ["mesh", []], ["total_size", float(np.sum(h.bin_sizes))], ["total_width", float(h.total_width)], ["cumulative", f(h.cumulative_frequencies)]]
